@@ -28,6 +28,12 @@ EXC_PARENTS = {"KeyError": "LookupError", "IndexError": "LookupError", "LookupEr
                "NameError": "Exception", "StopIteration": "Exception", "Exception": "BaseException"}
 
 
+OPERATOR_BIN = {"operator.and_": ast.BitAnd, "operator.or_": ast.BitOr, "operator.xor": ast.BitXor, "operator.add": ast.Add, "operator.sub": ast.Sub,
+                "operator.mul": ast.Mult, "operator.truediv": ast.Div, "operator.pow": ast.Pow,
+                "operator.iand": ast.BitAnd, "operator.ior": ast.BitOr, "operator.iadd": ast.Add, "operator.imul": ast.Mult}
+OPERATOR_CMP = {"operator.lt": ast.Lt, "operator.le": ast.LtE, "operator.gt": ast.Gt, "operator.ge": ast.GtE, "operator.eq": ast.Eq, "operator.ne": ast.NotEq}
+
+
 class Raised(RaisedInModel):
     """An exception raised by the interpreted code: class name + node."""
 
@@ -370,6 +376,21 @@ class ModelEval(Evaluator):
                 return Marker("excinst", func.data[0], args)
             if k == "ext":
                 h = self.hooks.get("ext", {}).get(func.data[0])
+                if h is None and func.data[0] in OPERATOR_BIN and len(args) == 2:
+                    return self.binop(node, OPERATOR_BIN[func.data[0]](), args[0], args[1])
+                if h is None and func.data[0] in OPERATOR_CMP and len(args) == 2:
+                    return self.compare(node, OPERATOR_CMP[func.data[0]](), args[0], args[1])
+                if h is None and func.data[0] == "functools.reduce" and len(args) >= 2:
+                    items = self.iterate(args[1], node)
+                    if len(args) > 2:
+                        acc = args[2]
+                    elif items:
+                        acc, items = items[0], items[1:]
+                    else:
+                        raise Raised("TypeError", node, "reduce() of empty iterable with no initial value")
+                    for x in items:
+                        acc = self.call(node, args[0], [acc, x], {})
+                    return acc
                 if h is None and func.data[0] in ("copy.copy", "copy.deepcopy") and len(args) >= 1:
                     return self.py_copy(args[0], deep=func.data[0] == "copy.deepcopy", node=node)
                 if h is None:
